@@ -63,8 +63,12 @@ int a_vec_setm(a_vec *ctx, a_size mem)
     {
         void *ptr;
         a_size m = ctx->mem_;
+        /* largest capacity whose size in bytes is representable, a multiple of the rounding step */
+        a_size const max = a_size_down(sizeof(void *), A_SIZE_MAX / ctx->siz_);
+        if (mem > max) { return A_OMEMORY; }
         do {
-            m += (m >> 1) + 1;
+            a_size const add = (m >> 1) + 1;
+            m = (add <= max - m) ? m + add : max;
         } while (m < mem);
         mem = a_size_up(sizeof(void *), m);
         ptr = a_alloc(ctx->ptr_, ctx->siz_ * mem);
